@@ -310,6 +310,17 @@ def run_case(ctx, case):
         o, m = run.choose(rng, pol if pol != "mixed" else rng.choice(gen.POLICIES))
         run.dispatch(o, m)
         g = upd.job_shop_graph
+        if case["seed"] % 9 == 4:
+            # a user of the live residual graph tries to connect a node that is already gone: the
+            # graph refuses (or ignores it) - a removed node does not come back through an edge
+            gone = [i for i, x in enumerate(g.removed_nodes) if x]
+            here = [i for i, x in enumerate(g.removed_nodes) if not x]
+            if gone and here:
+                try:
+                    g.add_edge(rng.choice(gone), rng.choice(here))
+                except Exception:
+                    pass
+                ctx.count("edges_to_removed_nodes_attempted")
         # the dispatcher's clock: with a user-written filter it is the minimum start over the
         # operations that filter lets through (reference model mirrors the filter)
         now = r.current_time(run.filter_names if run.filter_names and
